@@ -46,7 +46,13 @@ def pool(units):
     inst = [("inst", "#2024-01-01#", datetime(2024, 1, 1)), ("inst", "#2024-01-01T00:00:00#", datetime(2024, 1, 1)),
             ("inst", "#2024-01-02#", datetime(2024, 1, 2)), ("inst", "#1999-12-31T23:59:59.999999#", datetime(1999, 12, 31, 23, 59, 59, 999999)),
             ("inst", "#2024-02-29T12:00#", datetime(2024, 2, 29, 12)), ("inst", "#2024#", datetime(2024, 1, 1)), ("inst", "#2024-02#", datetime(2024, 2, 1))]
-    return dict(numeric=nums + floats + lazy + dimless, length=length, time=time_, instant=inst)
+    from datetime import timezone, timedelta
+    tz = lambda h: timezone(timedelta(hours=h))
+    aware = [("insta", "#2020-01-01T01:00:00+01:00#", datetime(2020, 1, 1, 1, tzinfo=tz(1))),
+             ("insta", "#2020-01-01T00:00:00+00:00#", datetime(2020, 1, 1, 0, tzinfo=tz(0))),
+             ("insta", "#2020-01-01T00:00:00+01:00#", datetime(2020, 1, 1, 0, tzinfo=tz(1))),
+             ("insta", "#2019-12-31T19:00:00-05:00#", datetime(2019, 12, 31, 19, tzinfo=tz(-5)))]
+    return dict(numeric=nums + floats + lazy + dimless, length=length, time=time_, instant=inst, instant_aware=aware)
 
 
 def impl_case(text):
@@ -62,6 +68,9 @@ def exact_value(item, units):
         return c05.eager(rep)
     if kind == "inst":
         return Fraction(int((rep - datetime(1, 1, 1)).total_seconds()) * 10 ** 6 + rep.microsecond)
+    if kind == "insta":
+        from datetime import timezone
+        return Fraction(int((rep - datetime(1, 1, 1, tzinfo=timezone.utc)).total_seconds()) * 10 ** 6 + rep.microsecond)
     from props import c04
     sp = c04.mag_spec(rep, units)
     return sp[0] if sp and sp[1] else None
@@ -162,7 +171,7 @@ def run(ctx):
         lcases = [(c, o) for c, o in zip(cases, obs) if c[1][0] == "lazy" and c[2][0] == "lazy"]
         lterms = ["(%s)" % c05.coq_term(("cmp", CC[c[3]], c[1][2], c[2][2])) for c, _ in lcases]
         lo = C.run_model(ctx["rundir"], "c09l", c05.IMPORTS, "fun e => show_res show_num (ceval_top e)", lterms, shard=300)
-        icases = [(c, o) for c, o in zip(cases, obs) if c[0] == "instant"]
+        icases = [(c, o) for c, o in zip(cases, obs) if c[0] == "instant"]   # naive instants only: the model is the microsecond count
         us = lambda d: int((d - datetime(1, 1, 1)).total_seconds()) * 10 ** 6 + d.microsecond
         iterms = ["(%s, %s, %s)" % (QC[c[3]], C.coq_Z(us(c[1][2])), C.coq_Z(us(c[2][2]))) for c, _ in icases]
         io = C.run_model(ctx["rundir"], "c09i", "From Ka Require Import Model.Cmp.\nOpen Scope string_scope.\n",
@@ -176,7 +185,7 @@ def run(ctx):
                               dict(text=c[4], impl=o.get("value"), model=m), found_input=False)
     rep.coverage.update(dict(
         evaluations=len(cases) + len(incases), distinct_nontrivial=checked,
-        rule="all ordered pairs within each comparable group (numeric incl. floats, lazy combinatorics and dimensionless quantities: %d values; lengths %d; times %d; instants %d) x 6 operators (exhaustive), plus %d membership tests; non-trivial = an ordered pair whose 12 results (both orders) were all obtained and checked for coherence" % (len(P["numeric"]), len(P["length"]), len(P["time"]), len(P["instant"]), len(incases)),
+        rule="all ordered pairs within each comparable group (numeric incl. floats, lazy combinatorics and dimensionless quantities: %d values; lengths %d; times %d; instants %d) x 6 operators (exhaustive), plus %d membership tests; non-trivial = an ordered pair whose 12 results (both orders) were all obtained and checked for coherence" % (len(P["numeric"]), len(P["length"]), len(P["time"]), len(P["instant"]) + len(P["instant_aware"]), len(incases)),
         exhaustive=True, samples=[dict(text=c[4], displayed=(o.get("out") or "").strip()) for c, o in list(zip(cases, obs))[::997][:6]],
         traces_validated_against_impl=mcount, disagreements=disagreements, pairs_checked=checked))
     rep.assumptions += ["float operands compare by their exact binary value (Python semantics); the pool avoids values whose comparison depends on rounding of an ideal result"]
